@@ -20,6 +20,10 @@ func main() {
 		fatal("usage: harness gen|run ...")
 	}
 	cmd := os.Args[1]
+	if cmd == "deepskip" {
+		deepSkipChild()
+		return
+	}
 	fs := flag.NewFlagSet(cmd, flag.ExitOnError)
 	family := fs.String("family", "", "scenario family")
 	in := fs.String("in", "", "input ndjson")
